@@ -10,6 +10,7 @@ CONSTANTS
   Den = 21
   MaxSlots = 5
   GenN = 40
+  SubOrder = "sorted"
   UnionMode = "any"
   Mode = "genunion"
 INIT GenInit
